@@ -44,22 +44,26 @@ theorem rowLe_eq (i n : Nat) (h0 : 0 < i) (hi : i < n) : ∀ (fs : List (List In
 
 theorem checkLoop_spec (fs : List (List Int)) (n : Nat) (h : Rect n fs) : ∀ (k i : Nat), i + k = n → 1 ≤ i →
     ∃ b, checkLoop fs k i = .ok b ∧
-      (b = true → ∀ j, i ≤ j → j < n → tupleLt (keyAt fs j) (keyAt fs (j - 1)) = false)
-  | 0, i, hik, _ => ⟨true, rfl, fun _ j h1 h2 => by omega⟩
+      (b = true → ∀ j, i ≤ j → j < n → tupleLt (keyAt fs j) (keyAt fs (j - 1)) = false) ∧
+      (b = false → ∃ j, i ≤ j ∧ j < n ∧ tupleLt (keyAt fs j) (keyAt fs (j - 1)) = true)
+  | 0, i, hik, _ => ⟨true, rfl, fun _ j h1 h2 => by omega, by simp⟩
   | k + 1, i, hik, h1 => by
     have hrow := rowLe_eq i n (by omega) (by omega) fs h
-    obtain ⟨b, hb, hspec⟩ := checkLoop_spec fs n h k (i + 1) (by omega) (by omega)
+    obtain ⟨b, hb, hspec, hconv⟩ := checkLoop_spec fs n h k (i + 1) (by omega) (by omega)
     cases hv : tupleLt (keyAt fs i) (keyAt fs (i - 1)) with
     | true =>
-      refine ⟨false, ?_, by simp⟩
+      refine ⟨false, ?_, by simp, fun _ => ⟨i, by omega, by omega, hv⟩⟩
       simp [checkLoop, hrow, hv]
     | false =>
-      refine ⟨b, ?_, ?_⟩
+      refine ⟨b, ?_, ?_, ?_⟩
       · simp [checkLoop, hrow, hv, hb]
       · intro hbt j hj1 hj2
         by_cases hji : j = i
         · subst hji; exact hv
         · exact hspec hbt j (by omega) hj2
+      · intro hbf
+        obtain ⟨j, h1', h2', h3'⟩ := hconv hbf
+        exact ⟨j, by omega, h2', h3'⟩
 
 /-- adjacent rows in order ⇒ all rows in order -/
 theorem sorted_of_adjacent (key : Nat → List Int) (n : Nat)
@@ -74,22 +78,30 @@ theorem sorted_of_adjacent (key : Nat → List Int) (n : Nat)
     · have := sorted_of_adjacent key n h j i (by omega) (by omega)
       exact tupleLe_trans this hstep
 
-/-- `check_if_sorted_for_multi_fields` on a rectangular array: returns (no out-of-bounds read), and `True` only if
+/-- `check_if_sorted_for_multi_fields` on a rectangular array: returns (no out-of-bounds read), `True` exactly if
     the rows are in non-decreasing lexicographic order -/
 theorem checkIfSorted_spec (f0 : List Int) (fs : List (List Int)) (n : Nat) (h : Rect n (f0 :: fs)) :
     ∃ b, checkIfSorted (f0 :: fs) = .ok b ∧
-      (b = true → ∀ i j, i < j → j < n → tupleLt (keyAt (f0 :: fs) j) (keyAt (f0 :: fs) i) = false) := by
+      (b = true ↔ ∀ i j, i < j → j < n → tupleLt (keyAt (f0 :: fs) j) (keyAt (f0 :: fs) i) = false) := by
   have h0 : f0.length = n := h f0 (by simp)
   unfold checkIfSorted
   by_cases hn : n = 0
   · refine ⟨true, by simp [h0, hn], ?_⟩
-    intro _ i j _ hj; omega
+    simp only [true_iff]
+    intro i j _ hj; omega
   · have : (f0.length == 0) = false := by simp [h0, hn]
     simp only [this, Bool.false_eq_true, if_false]
-    obtain ⟨b, hb, hspec⟩ := checkLoop_spec (f0 :: fs) n h (f0.length - 1) 1 (by omega) (by omega)
-    refine ⟨b, hb, ?_⟩
-    intro hbt i j hij hj
-    exact sorted_of_adjacent (keyAt (f0 :: fs)) n (fun j h1 h2 => hspec hbt j h1 h2) j i hij hj
+    obtain ⟨b, hb, hspec, hconv⟩ := checkLoop_spec (f0 :: fs) n h (f0.length - 1) 1 (by omega) (by omega)
+    refine ⟨b, hb, ?_, ?_⟩
+    · intro hbt i j hij hj
+      exact sorted_of_adjacent (keyAt (f0 :: fs)) n (fun j h1 h2 => hspec hbt j h1 h2) j i hij hj
+    · intro hsorted
+      cases hbv : b with
+      | true => rfl
+      | false =>
+        obtain ⟨j, h1, h2, h3⟩ := hconv hbv
+        have := hsorted (j - 1) j (by omega) h2
+        rw [h3] at this; cases this
 
 /-! ### stacking -/
 
